@@ -20,6 +20,8 @@ type chunkReader struct {
 	data  []byte
 	sizes []int
 	i     int
+	// eofWithData: the read that delivers the last bytes also reports io.EOF (an io.Reader may do that)
+	eofWithData bool
 }
 
 func (c *chunkReader) Read(p []byte) (int, error) {
@@ -46,6 +48,9 @@ func (c *chunkReader) Read(p []byte) (int, error) {
 	}
 	copy(p, c.data[:n])
 	c.data = c.data[n:]
+	if c.eofWithData && len(c.data) == 0 {
+		return n, io.EOF
+	}
 	return n, nil
 }
 
@@ -82,13 +87,13 @@ func (r frameResult) key() string {
 	return sb.String()
 }
 
-func frameOnce(data []byte, sizes []int, buf int) (res frameResult) {
+func frameOnce(data []byte, sizes []int, buf int, eofWithData bool) (res frameResult) {
 	defer func() {
 		if r := recover(); r != nil {
 			res.err = fmt.Sprintf("panic:%v", r)
 		}
 	}()
-	p := quickfix.VerifNewParser(&chunkReader{data: append([]byte(nil), data...), sizes: sizes}, buf)
+	p := quickfix.VerifNewParser(&chunkReader{data: append([]byte(nil), data...), sizes: sizes, eofWithData: eofWithData}, buf)
 	for n := 0; n < 10000; n++ {
 		b, err := p.ReadMessage()
 		if err != nil {
@@ -161,20 +166,22 @@ func FramerMain(args []string) int {
 		var results []interface{}
 		for _, buf := range []int{0, 16, 32, 64} {
 			for _, s := range scheds {
-				r := frameOnce(data, s, buf)
-				runs++
-				k := r.key()
-				if _, ok := distinct[k]; !ok {
-					distinct[k] = len(results)
-					fr := []interface{}{}
-					for _, f := range r.frames {
-						fr = append(fr, ints(f))
+				for _, ewd := range []bool{false, true} {
+					r := frameOnce(data, s, buf, ewd)
+					runs++
+					k := r.key()
+					if _, ok := distinct[k]; !ok {
+						distinct[k] = len(results)
+						fr := []interface{}{}
+						for _, f := range r.frames {
+							fr = append(fr, ints(f))
+						}
+						wit := s
+						if len(wit) > 6 {
+							wit = wit[:6]
+						}
+						results = append(results, tr.M{"frames": fr, "err": r.err, "witness": tr.M{"buf": buf, "sizes": wit, "eofWithData": ewd}})
 					}
-					wit := s
-					if len(wit) > 6 {
-						wit = wit[:6]
-					}
-					results = append(results, tr.M{"frames": fr, "err": r.err, "witness": tr.M{"buf": buf, "sizes": wit}})
 				}
 			}
 		}
